@@ -324,6 +324,10 @@ class FormulaMaterializer(metaclass=FormulaMaterializerMeta):
             overrides: dict[str, Any] = {
                 "materializer": self.REGISTER_NAME,
                 "materializer_params": self.params,
+                # Materialization records state; do so on copies so that the
+                # spec passed in is left untouched.
+                "transform_state": dict(model_spec.transform_state),
+                "encoder_state": dict(model_spec.encoder_state),
             }
 
             if model_spec.output is None:
